@@ -125,6 +125,29 @@ let () =
             let what = String.concat " " t in
             try
               match t with
+              (* ---- MTBDD (F64, kind "mtbddf") ---------------------------------- *)
+              (* value codes = interned normalised bit patterns (dd_types.ml [term_code]); what does not
+                 need float arithmetic is checked here, the pointwise arithmetic of ADD .. MAX / ITE / VAR
+                 by ocaml/c10b_main.ml with the extracted Flocq model of coq/Num/F64.v *)
+              | [ "CONSTN"; dst; v ] when kname = "mtbddf" ->
+                expect_bool "C10" p.pstep what dst (Array.make (1 lsl n) (term_code kname v))
+              | [ "RESTRICT"; dst; a; pos; neg ] when kname = "mtbddf" ->
+                (match get a with
+                 | Some ta ->
+                   let pos = int_of_string pos and neg = int_of_string neg in
+                   expect_bool "C10" p.pstep what dst
+                     (Array.init (1 lsl n) (fun i -> ta.((i lor pos) land lnot neg)))
+                 | None -> stat "unresolved" 1)
+              | "EVAL" :: a :: [] when kname = "mtbddf" ->
+                (match get a, split_ws p.pres with
+                 | Some ta, "vt" :: nn :: vals when int_of_string nn = n ->
+                   check "C10";
+                   let impl = Array.of_list (List.map (fun v -> term_code kname v) vals) in
+                   if impl <> ta then
+                     fail p.pstep "C10" "prop"
+                       (Printf.sprintf "eval disagrees with the node-by-node interpretation of h%d" (slot_of a))
+                 | _ -> stat "unresolved" 1)
+              | ("VT" | "VAR" | "ADD" | "SUB" | "MUL" | "DIV" | "MIN" | "MAX" | "ITE") :: _ when kname = "mtbddf" -> ()
               (* ---- MTBDD (I64) ------------------------------------------------ *)
               | [ "CONSTN"; dst; v ] when kname = "mtbdd" ->
                 expect_bool "C10" p.pstep what dst (Array.make (1 lsl n) (mt_code (i64v_of_string v)))
@@ -412,7 +435,7 @@ let () =
               (Printf.sprintf "after dropping all handles and gc() %d inner nodes remain (a fresh manager with these variables has %d)" ps.inner expect0);
           (* MTBDD: terminals are reference counted as well: a collection frees exactly the terminals that
              neither a handle nor a stored node refers to *)
-          if kname = "mtbdd" then (
+          if kname = "mtbdd" || kname = "mtbddf" then (
             let used : (string, unit) Hashtbl.t = Hashtbl.create 16 in
             let mark (e : Model.edge) = match e.Model.eref with Model.RT t -> Hashtbl.replace used (string_of_n t) () | _ -> () in
             List.iter (fun (_, e) -> mark e) ps.handles;
@@ -578,6 +601,30 @@ let () =
               (* C07: block markers, the event trace (replayed by ocaml/c07_main.ml) and a collection under
                  the shared lock inside a parallel block carry no obligations here *)
               | ("PAR" | "ENDPAR" | "EV" | "EVSTAT" | "PGC") :: _ -> ()
+              | "BIGORDER" :: _pairs :: _threads :: _seed :: req ->
+                (* C08 on a manager large enough for the concurrent bubble sort: the requested relative
+                   order holds, the number of adjacent swaps is minimal, sampled evaluations unchanged *)
+                check "C08";
+                let req = List.map int_of_string req in
+                let rt = split_ws res in
+                let rec after_v2l = function "v2l" :: r -> List.map int_of_string r | _ :: r -> after_v2l r | [] -> [] in
+                let v2l = Array.of_list (after_v2l rt) in
+                let n = Array.length v2l in
+                if not (List.mem "evals_ok=1" rt) then
+                  fail i "C08" "prop" "set_var_order (concurrent bubble sort) changed the function of a live handle (sampled evaluations differ)"
+                else if n = 0 || List.exists (fun v -> v >= n) req then fail i "C08" "corr" ("cannot read: " ^ l)
+                else (
+                  let rec sorted = function a :: (b :: _ as r) -> v2l.(a) < v2l.(b) && sorted r | _ -> true in
+                  let ident = Array.init n (fun x -> x) in
+                  let perm_ok = (let seen = Array.make n false in Array.for_all (fun l -> l >= 0 && l < n && (not seen.(l)) && (seen.(l) <- true; true)) v2l) in
+                  if not perm_ok then fail i "C08" "prop" "var_to_level is not a permutation after set_var_order"
+                  else if not (sorted req) then
+                    fail i "C08" "prop" (Printf.sprintf "requested order [%s] not established (concurrent bubble sort): levels of these variables are [%s]"
+                                           (String.concat " " (List.map string_of_int req))
+                                           (String.concat " " (List.map (fun v -> string_of_int v2l.(v)) req)))
+                  else if Order.inversions ident v2l <> Order.min_inversions ident req then
+                    fail i "C08" "prop" (Printf.sprintf "set_var_order used %d adjacent swaps (inversions), the minimum is %d"
+                                           (Order.inversions ident v2l) (Order.min_inversions ident req)))
               | "VARS" :: k :: _ -> nvars := !nvars + int_of_string k; since := ("VARS " ^ k) :: !since
               | [ "DROP"; a ] | [ "DROPT"; a ] -> invalidate (slot_of a)
               | [ "DROPALL" ] -> Hashtbl.reset tts; Hashtbl.reset fams; dropall_gc := true
